@@ -1,4 +1,4 @@
-import Mimium.Proofs.ModResSpec
+import Mimium.Proofs.ModResOrder
 /-!
 # C17 — Module privacy and name resolution
 
@@ -8,7 +8,7 @@ the compiler by the correspondence run of `./check C17`.
 
 Quantifiers.  Every theorem ranges over **all** walk sequences `evs : List Ev` — a superset of the walks
 `events p` of all inline module trees `p : List Item`, any depth, any number of members, any mix of
-`fn` / `mod` / `use` / `use {..}` / `use *` / `pub use` —, over **every use-site position**, given as an arbitrary current
+`fn` / `mod` / `use` / `use {..}` / `use *` / `pub use` / `let` / `pub let` —, over **every use-site position**, given as an arbitrary current
 module path `cur` and an arbitrary stack `locals` of lexical scopes, over every set `known` of collected names, and
 over **every reference form** `Ref` (plain identifier, qualified path with ≥ 2 segments; the parser lowers a
 one-segment path to a plain identifier, `lower.rs`).
@@ -26,6 +26,20 @@ What is proved.
 * `C17_resolves_to_denoted_*`: lookup order (absolute, then relative to the current module; innermost enclosing
   module first for plain identifiers), the flat mangled name space is the tree's path name space, uniqueness.
 * `C17_local_shadows_import*`: a lexically bound name is never rewritten, whatever is imported.
+
+* Programs with `let` items (second half of the file; helper lemmas in `Proofs/ModResLet.lean`, `ModResLetPriv.lean`,
+  `ModResOrder.lean`).  The resolver walks ONE flattened chain of all items of all modules with a mutable module
+  context; `C17_spine_context_is_top_level` / `C17_site_result_is_what_the_pass_computes`: the context is `[]` between
+  items and every item is resolved on its own under the context of its own name.
+  `C17_item_order_irrelevant_for_privacy` (top-level `let`, any right-hand side, across ANY items that do not bind its
+  identifiers), `…_any_item` / `…_member` (functions and lets in any module, across items unrelated to the item's map
+  key): same resolved body, same diagnostics, wherever the item stands.  The walk of the pinned tree before /repo
+  8a25d9f and the walk of seeded change C17c are machine-checked counterexamples (`C17_item_order_relevant_*`).
+  `C17_site_context_is_enclosing_module_*` + `C17_no_private_route_program`: in programs without re-exports, duplicate
+  functions and let-name clashes (`letNamesFresh`), no accepted reference occurrence inside any item names a private
+  member of a module that does not enclose the item.  `C17_let_context_by_plain_name_refuted` (finding F12-letctx) and
+  `C17_module_let_is_global*`, `C17_let_visibility_ignored` (finding F12-letglobal) say what the code does with
+  module-level `let`s instead.
 
 What is not proved here: that `typing.rs` then binds the returned name lexically (definitions are visible only
 after their statement) and evaluation — both are only exercised by the correspondence (`Model/ModResIO.lean`).
@@ -306,5 +320,358 @@ example :
     resolveRef ⟨lowerInfo evs, knownOf evs, [1], []⟩ (.path [1, 2]) = ([1, 2], []) ∧
     resolveRef ⟨lowerInfo evs, knownOf evs, [1], []⟩ (.ident 2) = ([1, 2], []) := by
   decide +kernel
+
+/-! ## programs with `let` items
+
+`Item.letD` / `Ev.letS`: `let x = e` at top level or inside a module (`pub let` is accepted by the grammar and the flag
+dropped).  All theorems above quantify over walks that may contain such items (they were generalised in place: a `let`
+touches neither the visibility map nor the alias map).  What is new with `let` items is that the *position* of a
+reference — which module context the resolver has when it reaches it — is no longer that of a function body; the
+theorems below are about that position: the resolver walks ONE flattened chain of all items of all modules.
+
+Vocabulary (`Proofs/ModResLet.lean`, `Proofs/ModResLetPriv.lean`): `siteResult info known ls A ev` = what the pass
+computes at item `ev` standing after the prefix `A` (resolved right-hand side, diagnostics); `siteCtx info key []` = the
+module context `module_context_map` assigns to `key`; `occs` = the reference occurrences inside one item with the
+context in force; `letNamesFresh P` (a `Bool`) = no module-level `let` shares its plain name with anything else. -/
+
+/-- **the module context is `[]` between items**: the pass over the flattened program resolves every item on its own,
+under the context that `module_context_map` assigns to the item's *own* name, and the continuation after the last item
+at top level — whatever the items before it are.  (This is the statement that the pinned tree before /repo 8a25d9f and
+seeded change C17c violate: `C17_item_order_relevant_before_8a25d9f`, `C17_item_order_relevant_under_seeded_C17c`.) -/
+theorem C17_spine_context_is_top_level (evs : List Ev) (tail : Expr) :
+    convertProgram evs tail = convertChain (lowerInfo evs) (knownOfT evs tail) tail [] evs :=
+  convertProgram_eq_chain evs tail
+
+/-- `siteResult` is what the whole-program pass computes at an item: the program's diagnostics are those of the items
+before, then the item's, then those of the items after; and the item's resolved right-hand side is found at the
+item's position on the spine of the output. -/
+theorem C17_site_result_is_what_the_pass_computes (A : List Ev) (ev : Ev) (C : List Ev) (tail : Expr) :
+    let P := A ++ ev :: C
+    let info := lowerInfo P
+    let known := knownOfT P tail
+    (convertProgram P tail).2 =
+      (convertChain info known .unit [] A).2 ++ (siteResult info known [] A ev).2 ++
+        (convertChain info known tail (spineScopes [] (A ++ [ev])) C).2 ∧
+    (ev.isBinder = true →
+      rhsAt (binders A).length (convertProgram P tail).1 = some (siteResult info known [] A ev).1) := by
+  intro P info known
+  rw [convertProgram_eq_chain]
+  exact convertChain_split info known tail A ev C []
+
+/-- **item order is irrelevant for privacy** (walk form, most general).  Take any flattened program and a top-level
+`let x = e` in it.  Whether the references in `e` are accepted, and what they resolve to, is the same when the `let`
+stands after the prefix `A` and when it stands after the longer prefix `A ++ B` — for every `A`, `B`, `C` (whole
+modules, parts of modules, functions, `use`s, other `let`s), every right-hand side `e`, provided only that `B` does
+not itself *bind* an identifier occurring in `e` (lexical scoping of the flattened chain; no condition at all for
+qualified paths). -/
+theorem C17_item_order_irrelevant_for_privacy_walk (A B C : List Ev) (p : Bool) (x : Name) (e : Expr) (tail : Expr)
+    (hB : ∀ s ∈ e.vars, s ∉ binders B) :
+    siteResult (lowerInfo (A ++ .letS [] p x e :: (B ++ C))) (knownOfT (A ++ .letS [] p x e :: (B ++ C)) tail) []
+        A (.letS [] p x e) =
+      siteResult (lowerInfo (A ++ B ++ .letS [] p x e :: C)) (knownOfT (A ++ B ++ .letS [] p x e :: C) tail) []
+        (A ++ B) (.letS [] p x e) :=
+  siteResult_topLet_moved A B C p x e tail hB
+
+/-- **item order is irrelevant for privacy** (module-tree form): a top-level `let x = e` may stand before or after
+any list `I₂` of items — modules of any depth, with any members — that do not bind an identifier occurring in `e`:
+same resolved right-hand side, same diagnostics. -/
+theorem C17_item_order_irrelevant_for_privacy (I₁ I₂ I₃ : List Item) (p : Bool) (x : Name) (e : Expr) (tail : Expr)
+    (hunrel : ∀ s ∈ e.vars, s ∉ binders (events I₂)) :
+    siteResult (lowerInfo (events (I₁ ++ .letD p x e :: (I₂ ++ I₃))))
+        (knownOfT (events (I₁ ++ .letD p x e :: (I₂ ++ I₃))) tail) [] (events I₁) (.letS [] p x e) =
+      siteResult (lowerInfo (events (I₁ ++ I₂ ++ .letD p x e :: I₃)))
+        (knownOfT (events (I₁ ++ I₂ ++ .letD p x e :: I₃)) tail) [] (events (I₁ ++ I₂)) (.letS [] p x e) := by
+  have h := siteResult_topLet_moved (events I₁) (events I₂) (events I₃) p x e tail hunrel
+  simpa only [events, eventsL_append, eventsL, Item.events, List.singleton_append, List.append_assoc] using h
+
+/-- … in particular a reference by qualified path (called or not) needs no side condition. -/
+theorem C17_item_order_irrelevant_for_privacy_path (I₁ I₂ I₃ : List Item) (p : Bool) (x : Name) (segs : List Name)
+    (tail : Expr) :
+    siteResult (lowerInfo (events (I₁ ++ .letD p x (.call (.qvar segs)) :: (I₂ ++ I₃))))
+        (knownOfT (events (I₁ ++ .letD p x (.call (.qvar segs)) :: (I₂ ++ I₃))) tail) [] (events I₁)
+        (.letS [] p x (.call (.qvar segs))) =
+      siteResult (lowerInfo (events (I₁ ++ I₂ ++ .letD p x (.call (.qvar segs)) :: I₃)))
+        (knownOfT (events (I₁ ++ I₂ ++ .letD p x (.call (.qvar segs)) :: I₃)) tail) [] (events (I₁ ++ I₂))
+        (.letS [] p x (.call (.qvar segs))) :=
+  C17_item_order_irrelevant_for_privacy I₁ I₂ I₃ p x _ tail (by intro s hs; simp [Expr.vars] at hs)
+
+/-- the walk of the pinned tree before /repo 8a25d9f (`convertExprV true false`: the continuation of a `Let` converted
+before the module context is restored) does depend on item order: the private `vault::secret` is accepted from a
+top-level `let` that follows `mod vault { … let k = 1.0 }` and rejected from the same `let` placed before the module;
+the walk as it stands rejects both. -/
+theorem C17_item_order_relevant_before_8a25d9f :
+    (convertProgramV true false (events letAfter) .unit).2 = [] ∧
+    (convertProgramV true false (events letBefore) .unit).2 = [⟨[1], some 2⟩] ∧
+    (convertProgram (events letAfter) .unit).2 = [⟨[1], some 2⟩] ∧
+    (convertProgram (events letBefore) .unit).2 = [⟨[1], some 2⟩] := by
+  decide +kernel
+
+/-- the same for seeded change C17c (`convertExprV false true`: the continuation of a `LetRec` converted before the
+context is restored), on a module whose last item is a function -/
+theorem C17_item_order_relevant_under_seeded_C17c :
+    (convertProgramV false true (events fnAfter) .unit).2 = [] ∧
+    (convertProgramV false true (events fnBefore) .unit).2 = [⟨[1], some 2⟩] ∧
+    (convertProgram (events fnAfter) .unit).2 = [⟨[1], some 2⟩] ∧
+    (convertProgram (events fnBefore) .unit).2 = [⟨[1], some 2⟩] := by
+  decide +kernel
+
+/-- `convertExprV false false` is the model's walk (the two leaking walks differ from it in one line each) -/
+theorem C17_model_variants_base (info : Info) (known : Sym → Bool) (e : Expr) (cur : List Name)
+    (ls : List (List Sym)) : convertExprV false false info known cur ls e = convertExpr info known cur ls e :=
+  convertExprV_ff info known e cur ls
+
+/-- **item order is irrelevant, for every kind of item** (walk form): a function or a `let`, at top level or inside any
+module, is resolved to the same right-hand side / body with the same diagnostics after the prefix `A` and after
+`A ++ B` of the flattened program, for all `A`, `B`, `C`, provided `B` is unrelated to the item: no event of `B`
+writes or reads the item's map key (`Ev.indep`: a binder with another key, a module opening, a `use` whose looked-up
+paths and exported names differ from the key) and `B` binds no identifier occurring in the item's body.
+`ModuleInfo` itself is *not* equal at the two places (its maps are reordered); it is indistinguishable for lookups
+(`Info.Equiv`, `lowerInfo_moved`). -/
+theorem C17_item_order_irrelevant_for_privacy_any_item (A B C : List Ev) (ev : Ev) (hb : ev.isBinder = true)
+    (tail : Expr) (hB : ∀ b ∈ B, b.indep ev.key) (hvars : ∀ s ∈ ev.body.vars, s ∉ binders B) :
+    siteResult (lowerInfo (A ++ ev :: (B ++ C))) (knownOfT (A ++ ev :: (B ++ C)) tail) [] A ev =
+      siteResult (lowerInfo (A ++ B ++ ev :: C)) (knownOfT (A ++ B ++ ev :: C) tail) [] (A ++ B) ev :=
+  siteResult_moved A B C ev hb tail hB hvars
+
+/-- … module-tree form for the members of a module `m` (at top level, between any items `J₁`, `J₂`): a function or
+`let` member may stand before or after sibling items `I₂` that are unrelated to it. -/
+theorem C17_item_order_irrelevant_for_privacy_member (J₁ J₂ I₁ I₂ I₃ : List Item) (mp : Bool) (m : Name) (it : Item)
+    (ev : Ev) (hit : it.events [m] = [ev]) (hb : ev.isBinder = true) (tail : Expr)
+    (hB : ∀ b ∈ eventsL [m] I₂, b.indep ev.key) (hvars : ∀ s ∈ ev.body.vars, s ∉ binders (eventsL [m] I₂)) :
+    let P₁ := events (J₁ ++ .mod mp m (I₁ ++ it :: (I₂ ++ I₃)) :: J₂)
+    let P₂ := events (J₁ ++ .mod mp m (I₁ ++ I₂ ++ it :: I₃) :: J₂)
+    let A := events J₁ ++ .modOpen [] m :: eventsL [m] I₁
+    siteResult (lowerInfo P₁) (knownOfT P₁ tail) [] A ev =
+      siteResult (lowerInfo P₂) (knownOfT P₂ tail) [] (A ++ eventsL [m] I₂) ev := by
+  intro P₁ P₂ A
+  have h := siteResult_moved A (eventsL [m] I₂) (eventsL [m] I₃ ++ events J₂) ev hb tail hB hvars
+  have e1 : P₁ = A ++ ev :: (eventsL [m] I₂ ++ (eventsL [m] I₃ ++ events J₂)) := by
+    simp only [P₁, A, events, eventsL_append, eventsL, Item.events, hit, List.nil_append, List.append_assoc,
+      List.cons_append]
+  have e2 : P₂ = A ++ eventsL [m] I₂ ++ ev :: (eventsL [m] I₃ ++ events J₂) := by
+    simp only [P₂, A, events, eventsL_append, eventsL, Item.events, hit, List.nil_append, List.append_assoc,
+      List.cons_append]
+  rw [e1, e2]
+  exact h
+
+/-- the independence hypothesis is needed: moving `pub fn f` across a `use f` that looks its key up changes what the
+alias `f` stands for (`mod a { pub fn f(){1.0}  use f }` vs `mod a { use f  pub fn f(){1.0} }`). -/
+theorem C17_item_order_relevant_for_related_use :
+    get? (lowerInfo (events [.mod false 1 [.fn true 4 [] (.lit 1), .use false [4] .single]])).alias [4] = some [1, 4] ∧
+    get? (lowerInfo (events [.mod false 1 [.use false [4] .single, .fn true 4 [] (.lit 1)]])).alias [4] = some [4] ∧
+    ¬ (Ev.use [1] false [4] .single).indep (Ev.fn [1] true 4 [] (.lit 1)).key := by
+  refine ⟨by decide +kernel, by decide +kernel, ?_⟩
+  simp [Ev.indep, Ev.key, useKeys]
+
+/-! ### which module an item is resolved in -/
+
+/-- a `let` item standing in module `pre` (top level: `[]`) is resolved under context `pre`, provided every
+module-level `let` of the same plain name stands in that same module. -/
+theorem C17_site_context_is_enclosing_module_let (P : List Ev) (pre : List Name) (pub : Bool) (x : Name) (e : Expr)
+    (hin : Ev.letS pre pub x e ∈ P)
+    (hsame : ∀ pre' p' e', Ev.letS pre' p' x e' ∈ P → pre' = [] ∨ pre' = pre) :
+    siteCtx (lowerInfo P) [x] [] = pre :=
+  siteCtx_letS P pre pub x e hin hsame
+
+/-- a function standing in module `pre` is resolved under context `pre` — unconditionally inside a module (duplicate
+declarations included), and at top level provided no module-level `let` carries its name. -/
+theorem C17_site_context_is_enclosing_module_fn (P : List Ev) (pre : List Name) (pub : Bool) (x : Name)
+    (ps : List Name) (b : Expr) (hin : Ev.fn pre pub x ps b ∈ P)
+    (htop : pre = [] → ∀ pre' p' e', Ev.letS pre' p' x e' ∈ P → pre' = []) :
+    siteCtx (lowerInfo P) (pre ++ [x]) [] = pre :=
+  siteCtx_fn P pre pub x ps b hin htop
+
+/-- both provisos are needed — finding **F12-letctx**: `module_context_map` is keyed by the *plain* name of a
+module-level `let`, so a top-level `let k`, a local `let k` and a top-level `fn dsp` are resolved inside `vault` when
+`vault` has a `let k` / `let dsp`; the private `vault::secret` is then accepted from outside (no diagnostics, the
+reference resolves to `vault$secret`), while the same program with the probe named differently is rejected. -/
+theorem C17_let_context_by_plain_name_refuted :
+    convertProgram (events letCtxTop) .unit =
+      (chain .unit (events [.mod false 1 [.fn false 2 [] (.lit 42), .letD false 7 (.lit 1)],
+        .letD false 7 (.call (.var [1, 2])), .fn false 0 [] (.var [7])]), []) ∧
+    (convertProgram (events letCtxLocal) .unit).2 = [] ∧
+    (convertProgram (events letCtxFn) .unit).2 = [] ∧
+    siteCtx (lowerInfo (events letCtxTop)) [7] [] = [1] ∧
+    siteCtx (lowerInfo (events letCtxFn)) [0] [] = [1] ∧
+    ([1, 2], false) ∈ fnDecls (events letCtxTop) ∧
+    noPubUse (events letCtxTop) = true ∧ ((fnDecls (events letCtxTop)).map (·.1)).Nodup ∧
+    letNamesFresh (events letCtxTop) = false ∧ letNamesFresh (events letCtxLocal) = false ∧
+    letNamesFresh (events letCtxFn) = false ∧
+    (convertProgram (events letAfter) .unit).2 = [⟨[1], some 2⟩] ∧ letNamesFresh (events letAfter) = true := by
+  decide +kernel
+
+/-- **no private route, for whole programs with `let` items.**  In a program without re-exports, without duplicate
+function declarations, and in which no module-level `let` shares its plain name with another binder
+(`letNamesFresh`), take ANY item — function or `let`, at top level or in a module `pre`, at any position of the item
+order — and ANY reference occurrence inside it (under local `let`s, lambdas, local `letrec`s), with the module context
+and scopes the pass really has there (`occs`).  If the pass accepts the occurrence, the name it resolves to is not a
+private member of a module that does not enclose `pre`.  (For every `known` set and every outer scope stack.) -/
+theorem C17_no_private_route_program (P : List Ev) (hre : noPubUse P = true)
+    (hnd : ((fnDecls P).map (·.1)).Nodup) (hfresh : letNamesFresh P = true) (hpl : bodiesPlain P = true)
+    (ev : Ev) (hev : ev ∈ P) (pre : List Name) (key : Sym) (rhs : Expr) (hs : ev.site = some (pre, key, rhs))
+    (hwf : rhs.refsWf = true) (known : Sym → Bool) (ls : List (List Sym)) :
+    ∀ o ∈ occs (lowerInfo P) (siteCtx (lowerInfo P) key []) ls rhs, ∀ sym,
+      convertExpr (lowerInfo P) known o.1 o.2.1 o.2.2 = (.var sym, []) →
+      PrivateMember P sym → sym.dropLast <+: pre := by
+  intro o ho sym hres hpriv
+  have hctx : siteCtx (lowerInfo P) key [] = pre := siteCtx_of_fresh hfresh hev hs
+  have hb : ∀ k ∈ rhs.binderSyms, get? (lowerInfo P).ctxMap k = none := by
+    have := local_binders_not_ctx_keys hfresh hpl hev
+    cases ev with
+    | fn pre' pub x ps b =>
+      simp only [Ev.site, Option.some.injEq, Prod.mk.injEq] at hs
+      obtain ⟨_, _, rfl⟩ := hs
+      simpa [Ev.body, Expr.binderSyms] using this
+    | letS pre' pub x e =>
+      simp only [Ev.site, Option.some.injEq, Prod.mk.injEq] at hs
+      obtain ⟨_, _, rfl⟩ := hs
+      simpa [Ev.body] using this
+    | modOpen => simp [Ev.site] at hs
+    | use => simp [Ev.site] at hs
+  rw [hctx] at ho
+  have hcur := occs_ctx (lowerInfo P) rhs pre ls hb o ho
+  have hwfo := occs_refsWf (lowerInfo P) rhs pre ls hwf o ho
+  have key' : sym.dropLast <+: o.1 := by
+    rcases occs_isRef (lowerInfo P) rhs pre ls o ho with ⟨s, hs'⟩ | ⟨segs, hs'⟩
+    · rw [hs'] at hres hwfo
+      simp only [Expr.refsWf, decide_eq_true_eq] at hwfo
+      obtain ⟨y, rfl⟩ : ∃ y, s = [y] := by
+        match s, hwfo with
+        | [y], _ => exact ⟨y, rfl⟩
+      simp only [convertExpr, Prod.mk.injEq, Expr.var.injEq] at hres
+      have hr : resolveRef ⟨lowerInfo P, known, o.1, o.2.1⟩ (.ident y) = (sym, []) := by
+        simp only [resolveRef]; exact Prod.ext hres.1 hres.2
+      exact C17_no_private_route_partial P hre hnd known o.1 o.2.1 (.ident y) sym rfl hr hpriv
+    · rw [hs'] at hres hwfo
+      simp only [Expr.refsWf, decide_eq_true_eq] at hwfo
+      simp only [convertExpr, Prod.mk.injEq, Expr.var.injEq] at hres
+      have hr : resolveRef ⟨lowerInfo P, known, o.1, o.2.1⟩ (.path segs) = (sym, []) := by
+        simp only [resolveRef]; exact Prod.ext hres.1 hres.2
+      exact C17_no_private_route_partial P hre hnd known o.1 o.2.1 (.path segs) sym
+        (by unfold Ref.wf; exact decide_eq_true hwfo) hr hpriv
+  rcases hcur with h | h
+  · rw [h] at key'; exact key'
+  · rw [h] at key'
+    have : sym.dropLast = [] := List.prefix_nil.mp key'
+    rw [this]; exact List.nil_prefix
+
+/-- … and the diagnostics of an item are exactly those of its occurrences: an item without diagnostics is one all of
+whose reference occurrences were accepted. -/
+theorem C17_item_diagnostics_are_its_occurrences (info : Info) (known : Sym → Bool) (cur : List Name)
+    (ls : List (List Sym)) (e : Expr) :
+    (convertExpr info known cur ls e).2 =
+      (occs info cur ls e).flatMap (fun o => (convertExpr info known o.1 o.2.1 o.2.2).2) :=
+  convertExpr_errs_eq_occs info known e cur ls
+
+/-! ### what a `let` item declares -/
+
+/-- the flattened program does not depend on the module a `let` stands in nor on its `pub` flag: the binder is the
+**plain** name in every case (finding **F12-letglobal**: a module-level `let` is a global definition for everything
+that follows, it is never reachable as `m::k`, `pub` has no effect) -/
+theorem C17_module_let_is_global (A C : List Ev) (pre pre' : List Name) (p p' : Bool) (x : Name) (e tail : Expr) :
+    chain tail (A ++ .letS pre p x e :: C) = chain tail (A ++ .letS pre' p' x e :: C) ∧
+    binders (A ++ .letS pre p x e :: C) = binders A ++ [x] :: binders C := by
+  constructor
+  · induction A with
+    | nil => rfl
+    | cons a rest ih => cases a <;> simp only [List.cons_append, chain, ih]
+  · rw [binders_append]; rfl
+
+/-- the `pub` flag of a `let` changes neither `ModuleInfo` nor the flattened program -/
+theorem C17_let_visibility_ignored (A C : List Ev) (pre : List Name) (p q : Bool) (x : Name) (e tail : Expr) :
+    convertProgram (A ++ .letS pre p x e :: C) tail = convertProgram (A ++ .letS pre q x e :: C) tail := by
+  have h1 : lowerInfo (A ++ .letS pre p x e :: C) = lowerInfo (A ++ .letS pre q x e :: C) := by
+    simp only [lowerInfo, List.foldl_append, List.foldl_cons]; rfl
+  have h2 := (C17_module_let_is_global A C pre pre p q x e tail).1
+  unfold convertProgram
+  rw [h1, h2]
+
+/-- F12-letglobal on concrete programs: in `mod m { let k = 3.0 }  fn dsp(){ k }` the reference passes unchanged and
+without diagnostics, and `k` is a binder of the spine before `dsp` (so the lexical lookup of the type checker finds it);
+in `mod m { pub let k = 3.0 }  fn dsp(){ m::k }` the reference becomes the unknown name `m$k`, which nothing binds. -/
+theorem C17_module_let_is_global_witness :
+    convertProgram (events letGlobal) .unit = (chain .unit (events letGlobal), []) ∧
+    binders (events letGlobal) = [[7], [0]] ∧
+    convertProgram (events letByPath) .unit =
+      (chain .unit (events [.mod false 1 [.letD true 7 (.lit 3)], .fn false 0 [] (.var [1, 7])]), []) ∧
+    binders (events letByPath) = [[7], [0]] ∧
+    knownOf (events letByPath) [1, 7] = false ∧ knownOf (events letByPath) [7] = true := by
+  decide +kernel
+
+/-- a later item that refers to an earlier item's plain binder (a top-level function, a `let` at top level **or in
+any module**) is never rewritten by imports: the name is lexically bound on the spine. -/
+theorem C17_item_binder_shadows_import (info : Info) (known : Sym → Bool) (cur : List Name) (ls : List (List Sym))
+    (A : List Ev) (s : Sym) (h : s ∈ binders A) :
+    convertVar ⟨info, known, cur, spineScopes ls A⟩ s = (s, []) := by
+  apply C17_local_shadows_import_var
+  have := boundIn_spineScopes A ls s
+  simp only [h, decide_true, Bool.true_or] at this
+  exact this
+
+/-! ### non-vacuity of the `let` theorems -/
+
+/-- `C17_item_order_irrelevant_for_privacy`: the hypothesis holds for the program of the repaired defect (the module
+binds `vault$secret` and `k`, the right-hand side mentions no plain identifier), and both sides are a rejection. -/
+example :
+    let I₂ : List Item := [.mod false 1 [.fn false 2 [] (.lit 42), .letD false 7 (.lit 1)]]
+    let e : Expr := .call (.qvar [1, 2])
+    (∀ s ∈ e.vars, s ∉ binders (events I₂)) ∧
+    siteResult (lowerInfo (events ([] ++ .letD false 8 e :: (I₂ ++ [.fn false 0 [] (.var [8])]))))
+      (knownOfT (events ([] ++ .letD false 8 e :: (I₂ ++ [.fn false 0 [] (.var [8])]))) .unit) [] (events [])
+      (.letS [] false 8 e) = (.call (.var [1, 2]), [⟨[1], some 2⟩]) := by
+  decide +kernel
+
+/-- … and with an identifier: `mod a { pub fn f(){1.0} }  use a::f` may be crossed by `let x = f()` in the sense of the
+hypothesis only if the crossed items do not bind plain `f`; they do not (`a$f`), and the alias is followed at both
+positions. -/
+example :
+    let I₂ : List Item := [.mod false 1 [.fn true 4 [] (.lit 1)], .use false [1, 4] .single]
+    let e : Expr := .call (.var [4])
+    (∀ s ∈ e.vars, s ∉ binders (events I₂)) ∧
+    siteResult (lowerInfo (events ([] ++ .letD false 8 e :: (I₂ ++ []))))
+      (knownOfT (events ([] ++ .letD false 8 e :: (I₂ ++ []))) .unit) [] (events []) (.letS [] false 8 e)
+      = (.call (.var [1, 4]), []) := by
+  decide +kernel
+
+/-- `C17_no_private_route_program`: a program with a module-level `let`, a top-level `let` and a function satisfies
+all hypotheses; inside the module the private member is accepted, from the top-level `let` it is rejected. -/
+example :
+    let P := events [.mod false 1 [.fn false 2 [] (.lit 42), .letD false 7 (.call (.var [2]))],
+      .letD false 8 (.call (.qvar [1, 2])), .fn false 0 [] (.var [8])]
+    noPubUse P = true ∧ ((fnDecls P).map (·.1)).Nodup ∧ letNamesFresh P = true ∧ bodiesPlain P = true ∧
+    (∀ ev ∈ P, ev.body.refsWf = true) ∧
+    siteResult (lowerInfo P) (knownOfT P .unit) [] (P.take 2) (.letS [1] false 7 (.call (.var [2])))
+      = (.call (.var [1, 2]), []) ∧
+    (convertProgram P .unit).2 = [⟨[1], some 2⟩] := by
+  decide +kernel
+
+/-- `C17_site_context_is_enclosing_module_*`: hypotheses hold and contexts are non-trivial in `letAfter` -/
+example :
+    Ev.letS [1] false 7 (.lit 1) ∈ events letAfter ∧
+    (∀ pre' p' e', Ev.letS pre' p' 7 e' ∈ events letAfter → pre' = [] ∨ pre' = [1]) ∧
+    siteCtx (lowerInfo (events letAfter)) [7] [] = [1] ∧ siteCtx (lowerInfo (events letAfter)) [8] [] = [] ∧
+    siteCtx (lowerInfo (events letAfter)) [1, 2] [] = [1] := by
+  refine ⟨by decide, ?_, by decide +kernel, by decide +kernel, by decide +kernel⟩
+  intro pre' p' e' h
+  simp [events, eventsL, Item.events, letAfter] at h
+  exact Or.inr h.1
+
+/-- `C17_item_order_irrelevant_for_privacy_any_item`: `mod vault { pub fn probe(){ secret() }  fn secret(){42.0} }` — the
+member `probe` may cross its sibling `secret` (different key, binds `vault$secret`, not plain `secret`); at both
+places the reference resolves to the private sibling and is accepted (same module). -/
+example :
+    let ev : Ev := .fn [1] true 9 [] (.call (.var [2]))
+    let A : List Ev := [.modOpen [] 1]
+    let B : List Ev := [.fn [1] false 2 [] (.lit 42)]
+    ev.isBinder = true ∧ (∀ b ∈ B, b.indep ev.key) ∧ (∀ s ∈ ev.body.vars, s ∉ binders B) ∧
+    siteResult (lowerInfo (A ++ ev :: (B ++ []))) (knownOfT (A ++ ev :: (B ++ [])) .unit) [] A ev
+      = (.lam [] (.call (.var [1, 2])), []) ∧
+    siteResult (lowerInfo (A ++ B ++ ev :: [])) (knownOfT (A ++ B ++ ev :: []) .unit) [] (A ++ B) ev
+      = (.lam [] (.call (.var [1, 2])), []) := by
+  refine ⟨rfl, ?_, by decide, by decide +kernel, by decide +kernel⟩
+  intro b hb
+  simp only [List.mem_singleton] at hb
+  subst hb
+  simp [Ev.indep, Ev.key]
 
 end Mimium.ModRes
